@@ -387,13 +387,15 @@ def scan_assumptions(text):
 
 
 def run(name, text, timeout=300, extra=()):
-    os.makedirs(os.path.join(BUILD, "verus"), exist_ok=True)
-    path = os.path.join(BUILD, "verus", name + ".rs")
+    from .extract import SCRATCH_TAG
+    vdir = os.path.join(BUILD, "verus" + SCRATCH_TAG)
+    os.makedirs(vdir, exist_ok=True)
+    path = os.path.join(vdir, name + ".rs")
     with open(path, "w") as f: f.write(text)
     t0 = time.time()
     cmd = ["verus", path, "--output-json", "--time", "--num-threads", "8"] + list(extra)
     try:
-        p = subprocess.run(cmd, capture_output=True, text=True, timeout=timeout, cwd=os.path.join(BUILD, "verus"))
+        p = subprocess.run(cmd, capture_output=True, text=True, timeout=timeout, cwd=vdir)
         out, err, to = p.stdout, p.stderr, False
     except subprocess.TimeoutExpired as e:
         out, err, to = (e.stdout or b"").decode() if isinstance(e.stdout, bytes) else (e.stdout or ""), "", True
